@@ -123,8 +123,6 @@ def getModRM(obj, Mod, RM, data, REX=None):
     if Mod == 0:
         if RM == 0b101:
             b = env.rip
-            if seg == "":
-                seg = env.cs
             Mod = 0b10
         elif b.ref in ("rbp", "r13", "ebp", "r13d"):
             b = s + env.cst(0, adrsz)
